@@ -65,6 +65,11 @@ def build_harness():
             num = os.path.join(VERIF, "harness", "num.c")
             if os.path.exists(num):
                 jobs.append((["gcc", "-O2"] + CFLAGS[2:] + [num] + libsrc + ["-lpthread", "-lm", "-o", os.path.join(out, "num")], "num"))
+            leaf = os.path.join(VERIF, "harness", "leaf.c")
+            if os.path.exists(leaf):
+                # the static helpers are reached by including their source files; the other files are linked as they are
+                rest = [f for f in libsrc if os.path.basename(f) not in ("libeconf_ext.c", "getfilecontents.c")]
+                jobs.append((["gcc"] + CFLAGS + SAN + ["-I" + os.path.join(REPO, "util"), leaf] + rest + ["-o", os.path.join(out, "leaf")], "leaf"))
             tool = os.path.join(REPO, "util", "econftool.c")
             if os.path.exists(tool):
                 jobs.append((["gcc"] + CFLAGS + SAN + [tool] + libsrc + ["-o", os.path.join(out, "econftool")], "econftool"))
@@ -85,7 +90,7 @@ def build_harness():
         fcntl.flock(lock, fcntl.LOCK_UN)
         lock.close()
     return {"dir": out, "drv": os.path.join(out, "drv"), "thr": os.path.join(out, "thr"),
-            "num": os.path.join(out, "num"), "econftool": os.path.join(out, "econftool"), "hash": hsh}
+            "num": os.path.join(out, "num"), "econftool": os.path.join(out, "econftool"), "leaf": os.path.join(out, "leaf"), "hash": hsh}
 
 
 def lake_build(targets, pre=None):
@@ -112,8 +117,12 @@ if __name__ == "__main__":
     h = build_harness()
     print(h)
     sys.path.insert(0, VERIF)
-    from gen import extract_facts  # Generated/Facts.lean is not tracked: always re-extracted from /repo
-    ok, out = lake_build(["Econf", "econf_model", "Econf.Props.All"], pre=extract_facts.generate)
+    from gen import extract_facts, c2lean  # Generated/*.lean are not tracked: always re-extracted from /repo
+
+    def pre():
+        extract_facts.generate()
+        c2lean.generate()
+    ok, out = lake_build(["Econf", "econf_model", "Econf.Props.All"], pre=pre)
     print("lake:", ok)
     if not ok:
         print(out[-3000:])
